@@ -45,6 +45,8 @@ class ExprMixin:
             if name in cl.locals:
                 return cl.locals[name]
             cl = cl.closure
+        if name in ('g_out', 'g_enc', 'g_dec') and self.spec_mode:
+            return getattr(self, name)
         if name in self.spec_env and self.spec_mode:
             return self.spec_env[name]
         r = self.P.resolve_name(fr.module, name) if fr.module is not None else None
